@@ -87,6 +87,9 @@ def gen_thick(ctx, n):
         mesh = {"ndim": nd, "den": c["den"], "box": {"side": c["gen"]["box_side"]}}
         sref = c["gen"]["sref"]
         exact = c["gen"]["exact_wanted"]
+        for lay in c["layers"]:           # thick maps: finite cell values only (ASSUMPTIONS)
+            if lay["kind"] == "scalar":
+                lay["vals"] = [0.5 if v is None else v for v in lay["vals"]]
         if c["direction"]["kind"] == "str":
             c["direction"] = {"kind": "vec", "v": [1, 2, 2]}
         # smaller images: the oracle samples nx * ny * nz points
@@ -178,7 +181,7 @@ def run(ctx):
     out.extra["geometry_driver"] = driver_kind()
     dist = {}
     quick = ctx.tier == "quick"
-    cases = witness_cases() + gen_thick(ctx, 120 if quick else 1000) + gen_depth_ratios(ctx, 26 if quick else 260)
+    cases = witness_cases() + gen_thick(ctx, 120 if quick else 800) + gen_depth_ratios(ctx, 26 if quick else 260)
     recs = c03.evaluate(ctx, out, cases, sel, dist, prop=PROP)
     c03.thread_lane(ctx, out, recs, dist)
     c03.model_lanes(ctx, out, recs, sel, dist)
